@@ -569,6 +569,12 @@ func (h *httpServerHandler) handleGet(ctx context.Context, w http.ResponseWriter
 		return
 	}
 
+	// Session functionality not enabled: there is no session a stream could belong to.
+	if !h.enableSession || h.sessionManager == nil {
+		http.Error(w, "Session management disabled", http.StatusNotImplemented)
+		return
+	}
+
 	// Get session
 	session, ok := h.sessionManager.getSession(sessionID)
 	if !ok {
